@@ -51,7 +51,10 @@ def dump(path, pal, scale=None):
                 ax["ids"] = [pal.id_inv(_txt(x)) for x in f[axis + "/ids"][:]]
             if axis + "/metadata" in f and isinstance(f[axis + "/metadata"], h5py.Group):
                 for name, ds in f[axis + "/metadata"].items():
-                    ax["md"].append({"name": pal.key_inv(name.replace("@@SLASH@@", "/")), "len": int(ds.shape[0])})
+                    # a category must be a dataset with one entry per ID; anything else (a nested group) is logged
+                    # with length -1 so that the clause about metadata datasets fails instead of the decoder
+                    ln = int(ds.shape[0]) if isinstance(ds, h5py.Dataset) and len(ds.shape) >= 1 else -1
+                    ax["md"].append({"name": pal.key_inv(name.replace("@@SLASH@@", "/")), "len": ln})
             if axis + "/group-metadata" in f and isinstance(f[axis + "/group-metadata"], h5py.Group):
                 for name, ds in f[axis + "/group-metadata"].items():
                     ax["gmd"].append({"name": name, "text": _txt(ds[0])})
